@@ -7,7 +7,8 @@ or executed.  Small pure integer helpers (weekday arithmetic, interval overlap) 
   C15.range       calendar-field range rule: month / day_of_week arithmetic must not reach a month / day_of_week sink
                   without a wrap (test against a constant, % period, divmod)
   C15.provenance  a (year, month, day) triple takes month and day from the same object
-  C15.seconds     TimexValue.duration_value multiplies every unit by the reference number of seconds
+  C15.seconds     TimexValue.duration_value, run for every unit on whole and fractional probe amounts, equals amount x
+                  reference seconds (no truncation before scaling)
   C15.attr        attribute reads / writes / constructor keywords on values of a known class name something the class
                   defines; other attribute names must exist somewhere in the package or on datetime/builtins
   C15.guard       `x.a if x.b is not None else c` (and `if x.b is not None: return ..x.a..`) reads the field it guards
@@ -443,38 +444,43 @@ def const_fold(e):
     return None
 
 
+SECONDS_PROBES = ('1', '3', '0.5', '1.5', '2.25', '90')
+
+
 def rule_seconds(cx, chk):
+    """TimexValue.duration_value, run on a Timex with exactly one duration field set: the value must be the amount
+    times the reference number of seconds, as a number ('129600' and '129600.0' are the same) - for whole and for
+    fractional amounts, i.e. the amount is not truncated or rounded before it is scaled"""
+    import decimal
     c = cx.cls('TimexValue')
     fn = cx.meth('TimexValue', 'duration_value')
-    base = [p for p in params_of(fn) if p not in ('self', 'cls')][0]
-    table = {}
-    for n in ast.walk(fn):
-        if isinstance(n, ast.Return) and n.value is not None:
-            if isinstance(n.value, ast.Constant):
-                continue
-            cp = const_product(n.value, base)
-            if cp is None:
-                raise AnalysisError('%s:%d TimexValue.duration_value: return value not of the form k * %s.<unit>: %s'
-                                    % (c.mod.rel, n.lineno, base, ast.unparse(n.value)))
-            if cp[1] in table:
-                chk.bad('C15.seconds', c.mod.path, 'TimexValue.duration_value[%s]' % cp[1], 'converted twice',
-                        'two branches of duration_value multiply %s.%s: one of them answers for another unit'
-                        % (base, cp[1]), n.lineno)
-                continue
-            table[cp[1]] = (cp[0], n.lineno)
-    if not table:
-        raise AnalysisError('TimexValue.duration_value: no multiplier table found')
+    timex_cls = cx.cls('Timex')
     for unit, secs in SECONDS.items():
-        construct = 'TimexValue.duration_value[%s]' % unit
-        if unit not in table:
-            chk.bad('C15.seconds', c.mod.path, construct, 'missing', 'no branch converts %s to seconds' % unit, fn.lineno)
-        else:
-            chk.judge(table[unit][0] == secs, 'C15.seconds', c.mod.path, construct, '%d' % table[unit][0],
-                      'one %s is %d seconds, the code multiplies by %d' % (unit[:-1], secs, table[unit][0]),
-                      table[unit][1])
-    for unit in sorted(set(table) - set(SECONDS)):
-        chk.bad('C15.seconds', c.mod.path, 'TimexValue.duration_value[%s]' % unit, 'unknown unit',
-                '%s is not a duration field' % unit, table[unit][1])
+        bad = None
+        first = None
+        for probe in SECONDS_PROBES:
+            amount = decimal.Decimal(probe)
+            t = Ev(cx, timex_cls.mod).construct(timex_cls, [], {unit: amount})
+            try:
+                args = [t] if len(params_of(fn)) == 1 else [None, t]
+                got = Ev(cx, c.mod).run(fn, args)
+            except EvalError as ex:
+                raise AnalysisError('TimexValue.duration_value: not evaluable for %s=%s (%s)' % (unit, probe, ex))
+            want = amount * secs
+            try:
+                ok = got is not None and got != '' and decimal.Decimal(str(got)) == want
+            except decimal.InvalidOperation:
+                ok = False
+            if first is None:
+                first = got
+            if not ok and bad is None:
+                bad = (probe, got, want)
+        chk.judge(bad is None, 'C15.seconds', c.mod.path, 'TimexValue.duration_value[%s]' % unit,
+                  '%s s per unit, exact for %s' % (first, ','.join(SECONDS_PROBES)) if bad is None else
+                  '%s=%s -> %r' % ((unit,) + bad[:2]),
+                  'duration_value of %s=%s is %r; one %s is %d seconds, so the value must be %s (amounts may be fractional: '
+                  'no truncation or rounding before scaling)' % ((unit,) + (bad[:2] if bad else ('', '')) +
+                                                                 (unit[:-1], secs, bad[2] if bad else '')), fn.lineno)
 
 
 def guard_sites(fn):
@@ -963,11 +969,17 @@ class Ev:
         last = ch.split('.')[-1]
         args = [self.ev(a, env) for a in e.args]
         kws = {k.arg: self.ev(k.value, env) for k in e.keywords}
-        if ch in ('max', 'min', 'int', 'abs', 'len', 'range', 'list', 'sorted') and not kws:
+        if ch in ('max', 'min', 'int', 'abs', 'len', 'range', 'list', 'sorted', 'str', 'float', 'round', 'bool') and not kws:
             try:
                 return getattr(builtins, ch)(*args)
-            except (TypeError, ValueError) as ex:
+            except (TypeError, ValueError, ArithmeticError) as ex:
                 raise EvalError('%s raises %s' % (ch, type(ex).__name__))
+        if ch in ('Decimal', 'decimal.Decimal') and len(args) == 1 and not kws:
+            import decimal
+            try:
+                return decimal.Decimal(args[0])
+            except (TypeError, ValueError, ArithmeticError) as ex:
+                raise EvalError('Decimal raises %s' % type(ex).__name__)
         if last == 'timedelta':
             if set(kws) - {'days'} or len(args) > 1:
                 raise EvalError('timedelta arguments')
@@ -1649,7 +1661,8 @@ def run(chk):
              floor=10, control=True)
     chk.rule('C15.provenance', 'month and day of a (year, month, day) triple come from the same object', floor=6,
              control=True)
-    chk.rule('C15.seconds', 'TimexValue.duration_value multiplier table equals the reference seconds table', floor=7)
+    chk.rule('C15.seconds', 'TimexValue.duration_value = amount x reference seconds for every unit, whole and fractional '
+                            'probe amounts (run on its syntax tree)', floor=7)
     chk.rule('C15.attr', 'attribute names used on values of a known class exist on it; others exist somewhere',
              floor=150, control=True)
     chk.rule('C15.guard', 'a value guarded by `x.f is not None` reads x.f', floor=8, control=True)
